@@ -194,6 +194,9 @@ func setFloatFromBigInt(value *big.Int, dst reflect.Value) {
 		PanicErrorConverting(value, dst.Type(), err)
 	}
 	dst.SetFloat(v)
+	if dst.Float() != v {
+		PanicErrorConverting(value, dst.Type(), fmt.Errorf("value is not exactly representable"))
+	}
 }
 
 func setFloatFromBigFloat(value *big.Float, dst reflect.Value) {
